@@ -19,10 +19,16 @@ class Intercept:
         rec = dict(written=None, opened=[], error=None)
         ow, oo, oa = rg.write_robots, builtins.open, sys.argv
 
-        def fake_write(file_name, *a, **k):
-            rec['written'] = (file_name, a)
+        def fake_write(*a, **k):        # signature-transparent (the file name may be passed by keyword)
+            a = list(a)
+            file_name = a.pop(0) if a else k.pop('file_name')
+            rec['written'] = (file_name, tuple(a))
 
-        def fake_open(name, mode='r', *a, **k):
+        def fake_open(*args, **k):
+            args = list(args)
+            name = args.pop(0) if args else k.pop('file')
+            mode = args.pop(0) if args else k.pop('mode', 'r')
+            a = args
             if any(c in mode for c in 'wax+'):
                 rec['opened'].append(name)
                 raise PermissionError('intercepted')
